@@ -1360,8 +1360,59 @@ func (s *fstate) inLoopUnord() bool {
 	return false
 }
 
+// flagBreak: the break is the last statement of a block whose other statements only assign constants to plain variables
+// (`found = true; break`): the loop is an existential quantifier written with a flag - whichever element matches first,
+// the effect is the same.
+func (s *fstate) flagBreak(br *ast.BranchStmt) bool {
+	if s.d == nil || s.d.fd == nil || s.d.fd.Body == nil {
+		return false
+	}
+	body := s.d.fd.Body
+	quant := false
+	ast.Inspect(body, func(n ast.Node) bool {
+		var list []ast.Stmt
+		switch b := n.(type) {
+		case *ast.BlockStmt:
+			list = b.List
+		case *ast.CaseClause:
+			list = b.Body
+		default:
+			return true
+		}
+		if len(list) < 2 || list[len(list)-1] != ast.Stmt(br) {
+			return true
+		}
+		ok := true
+		for _, st := range list[:len(list)-1] {
+			as, isAs := st.(*ast.AssignStmt)
+			if !isAs || as.Tok != token.ASSIGN {
+				ok = false
+				break
+			}
+			for _, l := range as.Lhs {
+				if _, isID := ast.Unparen(l).(*ast.Ident); !isID {
+					ok = false
+				}
+			}
+			for _, rr := range as.Rhs {
+				if !isConst(s.info, rr) {
+					ok = false
+				}
+			}
+		}
+		if ok {
+			quant = true
+		}
+		return true
+	})
+	return quant
+}
+
 func (s *fstate) noteExit(n ast.Node, kind string) {
 	desc := kind
+	if br, ok := n.(*ast.BranchStmt); ok && s.flagBreak(br) {
+		return // quantifier written with a flag
+	}
 	if r, ok := n.(*ast.ReturnStmt); ok {
 		allConst, errRet := true, false
 		for _, e := range r.Results {
